@@ -36,6 +36,9 @@ func calleeName(c *ssa.CallCommon) string {
 	if fv := fieldOfValue(c.Value); fv != nil {
 		return "field:" + fieldOwner(fv) + "." + fv.Name()
 	}
+	if n := cellName(c.Value); n != "" {
+		return "var:" + n
+	}
 	return "dynamic"
 }
 
@@ -780,4 +783,29 @@ func storesInto(a *ssa.Alloc) []*ssa.Store {
 	}
 	walk(a)
 	return out
+}
+
+// cellAccess: instruction loads or stores the captured/local variable cell `name`.
+func cellAccess(in ssa.Instruction, name string) (isStore bool, val ssa.Value, ok bool) {
+	switch x := in.(type) {
+	case *ssa.Store:
+		if isCell(x.Addr, name) {
+			return true, x.Val, true
+		}
+	case *ssa.UnOp:
+		if x.Op == token.MUL && isCell(x.X, name) {
+			return false, x, true
+		}
+	}
+	return false, nil, false
+}
+
+func isCell(v ssa.Value, name string) bool {
+	switch x := v.(type) {
+	case *ssa.FreeVar:
+		return x.Name() == name
+	case *ssa.Alloc:
+		return x.Comment == name
+	}
+	return false
 }
